@@ -180,7 +180,7 @@ func runC03(c *Ctx) {
 		"the provenance of every getter of the matching view (also computed from the code, and separately tied to the RFC table by C02) is then composed with that image, and the result must be the parameter the caller supplied " +
 		"(or the documented constant). So encode-then-decode returns the supplied value for all parameter values, and — through C02 — an independent RFC decoder sees the same. " +
 		"Also decided: the three AppendPayload functions return ErrPayloadTooBig under their capacity guard and every slice/index operation in them and in SetPayload is within capacity (abstract interpreter, arbitrary arguments); " +
-		"the DHCP option order list puts the subnet mask before the router. Not decided: DHCP option maps and DNS names (loops over caller data), Parse classification of composed frames (C02 decides classification per constant), NDP option bodies."
+		"the DHCP option order list puts the subnet mask before the router. Not decided: equality of whole DHCP option maps (the emitting loop is decided by options-complete, the decoding walk by options-decoded) and DNS names (loops over caller data), Parse classification of composed frames (C02 decides classification per constant), NDP option bodies."
 	r.Assume("MAC parameters have at least 6 bytes, IPv4 address parameters 4 bytes", "copy() copies min(len(dst), len(src)); shorter arguments leave stale bytes")
 	r.Rule("roundtrip", "getter(encoder(args)) == the supplied argument / documented constant", 70)
 	r.Rule("capacity", "AppendPayload/SetPayload never write past capacity; too-big payloads get ErrPayloadTooBig", 8)
@@ -581,6 +581,7 @@ func runC03(c *Ctx) {
 	// ---- DHCP option order ----
 	runC03OptionOrder(c)
 	runC03OptionsComplete(c)
+	runC03OptionsDecoded(c)
 }
 
 func argNames(a []encArg) string {
@@ -658,6 +659,117 @@ func runC03OptionsComplete(c *Ctx) {
 	if n < 2 {
 		c.R.Add(core.Obligation{Rule: "options-complete", Key: "options-complete AppendOptions", Func: core.FuncName(fn), Status: core.Violated, Detail: fmt.Sprintf("expected two emission sites (ordered pass, remaining pass), found %d", n)})
 	}
+}
+
+// runC03OptionsDecoded: the decoding side of the DHCP option map. Every entry DHCP4.ParseOptions puts into the map is
+// keyed by the code byte at the cursor and holds exactly the bytes the length byte announces: the value is the slice
+// cursor[2 : 2+int(cursor[1])] itself (not a function of it), and the entry is conditional only on the walk's own
+// tests (not Pad, not End, enough bytes) - never on which option it is.
+func runC03OptionsDecoded(c *Ctx) {
+	c.R.Rule("options-decoded", "every option ParseOptions returns is keyed by its code byte and holds exactly the announced bytes", 1)
+	fn := c.A.Method("", "DHCP4", "ParseOptions")
+	if fn == nil {
+		c.R.Add(core.Obligation{Rule: "options-decoded", Key: "options-decoded ParseOptions", Status: core.Violated, Detail: "DHCP4.ParseOptions not found"})
+		return
+	}
+	kg := core.NewKeyGen()
+	n := 0
+	core.EachInstr(fn, func(i ssa.Instruction) {
+		mu, ok := i.(*ssa.MapUpdate)
+		if !ok {
+			return
+		}
+		n++
+		var bad []string
+		val := mu.Value
+		for {
+			if ct, ok := val.(*ssa.ChangeType); ok {
+				val = ct.X
+				continue
+			}
+			break
+		}
+		sl, ok := val.(*ssa.Slice)
+		var cur ssa.Value
+		if !ok {
+			bad = append(bad, "the stored value is "+norm(mu.Value)+", not a slice of the option area")
+		} else {
+			cur = sl.X
+			if sl.Low == nil || norm(sl.Low) != "2" {
+				bad = append(bad, "the value does not start after the two header bytes")
+			}
+			hi := ""
+			if sl.High != nil {
+				hi = norm(sl.High)
+			}
+			want := "(2+" + norm(cur) + "[1])"
+			if hi != want {
+				bad = append(bad, "the value ends at "+hi+", not at "+want)
+			} else if !sameBase(sl.High, cur) {
+				bad = append(bad, "the length byte is not read at the cursor the value is sliced from")
+			}
+		}
+		if cur != nil {
+			if norm(mu.Key) != norm(cur)+"[0]" || !sameBase(mu.Key, cur) {
+				bad = append(bad, "the key is "+norm(mu.Key)+", not the code byte at the cursor")
+			}
+			for _, g := range guardsOf(i) {
+				t := strings.TrimPrefix(g.Text, "!")
+				cn := norm(cur)
+				switch t {
+				case "(" + cn + "[0]==0)", "(" + cn + "[0]==255)", "(len(" + cn + ")>=2)", "(len(" + cn + ")<(2+" + cn + "[1]))":
+				default:
+					bad = append(bad, "the entry is conditional on "+g.Text)
+				}
+			}
+		}
+		status, det := core.Proved, ""
+		if len(bad) > 0 {
+			status = core.Violated
+			det = strings.Join(bad, "; ") + ": an option encoded with these bytes does not decode to the bytes supplied"
+		}
+		key := strings.TrimSuffix(kg.Key("options-decoded ParseOptions entry"), "#0")
+		c.R.Add(core.Obligation{Rule: "options-decoded", Key: key, Func: core.FuncName(fn), Pos: c.P.Pos(core.PosOf(i)), Status: status,
+			Basis: "map[cursor[0]] = cursor[2:2+int(cursor[1])] under " + guardTexts(guardsOf(i)), Detail: det})
+	})
+	if n == 0 {
+		c.R.Add(core.Obligation{Rule: "options-decoded", Key: "options-decoded ParseOptions", Func: core.FuncName(fn), Status: core.Violated, Detail: "no map update in ParseOptions"})
+	}
+}
+
+// sameBase: every index/slice operand reachable in the expression v (through conversions, arithmetic, loads and
+// index addresses) that is a φ is the value base - norm() prints different φ alike, so identity is checked here.
+func sameBase(v ssa.Value, base ssa.Value) bool {
+	ok := true
+	seen := map[ssa.Value]bool{}
+	var walk func(ssa.Value)
+	walk = func(x ssa.Value) {
+		if x == nil || seen[x] || x == base {
+			return
+		}
+		seen[x] = true
+		switch t := x.(type) {
+		case *ssa.Phi:
+			ok = false
+		case *ssa.Convert:
+			walk(t.X)
+		case *ssa.ChangeType:
+			walk(t.X)
+		case *ssa.BinOp:
+			walk(t.X)
+			walk(t.Y)
+		case *ssa.UnOp:
+			walk(t.X)
+		case *ssa.IndexAddr:
+			walk(t.X)
+			walk(t.Index)
+		case *ssa.Index:
+			walk(t.X)
+			walk(t.Index)
+		}
+	}
+	walk(v)
+	return ok
 }
 
 func optionOrderVerdict(c *Ctx, fn *ssa.Function) (core.Status, string) {
